@@ -63,7 +63,7 @@ def run_e2e(report, n_fonts, rng):
 
     formats = ["glyf_colr_0", "cff_colr_0", "cff2_colr_0", "glyf"]
     # directed source sets first: solid-filled sets of the reuse corpus (several donors under one transform, mirrors)
-    directed = [(name, texts) for name, fmts, tol, texts in CORPUS_SETS if name in ("two-donors-one-transform", "axis-scale-plus-shift", "translucent-black-donor")]
+    directed = [(name, texts) for name, fmts, tol, texts in CORPUS_SETS if name in ("two-donors-one-transform", "axis-scale-plus-shift", "translucent-black-donor", "bars", "palette-variable-with-opacity")]
     n_directed = len(directed) * 2
     for i in range(n_directed + n_fonts):
         fmt = formats[i % len(formats)]
